@@ -134,7 +134,7 @@ fn me_ref(m: &Message) -> Option<&ME> {
     }
 }
 
-fn make_msg(tp: &Templates, surface: bool, odd: bool, yz: u32, xz: u32) -> Message {
+pub fn make_msg(tp: &Templates, surface: bool, odd: bool, yz: u32, xz: u32) -> Message {
     let mut m = if surface { tp.sfc.clone() } else { tp.air.clone() };
     let par = if odd { CPRFormat::Odd } else { CPRFormat::Even };
     match me_mut(&mut m) {
@@ -153,7 +153,7 @@ fn make_msg(tp: &Templates, surface: bool, odd: bool, yz: u32, xz: u32) -> Messa
     m
 }
 
-fn position_of(m: &Message) -> Option<(f64, f64)> {
+pub fn position_of(m: &Message) -> Option<(f64, f64)> {
     match me_ref(m) {
         Some(ME::BDS05(p)) => p.latitude.zip(p.longitude),
         Some(ME::BDS06(p)) => p.latitude.zip(p.longitude),
